@@ -143,12 +143,37 @@ type runner struct {
 	overrun   bool
 	cloudDown bool
 	kick      *pendingKick  // a KickOldConnection whose I/O part is held back (KickBegin .. KickEnd)
+	hold      *pendingLogin // a login held between the auth handler and handleHandshake's registry section (LoginHold .. LoginResume)
 	sweep     *pendingSweep // a heartbeat-timeout sweep held between its registry section and its callback's CloseConnection
 }
 
 // pendingSweep: the server's own sweep goroutine (startConnectionCleanup -> cleanupStaleConnections ->
 // ClientRegistry.CleanupStale) has taken the stale connection out of the registry and is parked in the
 // offline notification of its callback (a slow cloud-control store). While it is parked no other sweep runs.
+// pendingLogin: the goroutine delivering the second handshake packet of a correct control-type login is parked
+// right after the last Write of the success response (the last thing sendHandshakeResponse does before
+// handleHandshake's registry section): the connection is authenticated, not yet indexed.
+type pendingLogin struct {
+	conn    string
+	release chan struct{}
+	done    chan bool // login result as the client sees it
+}
+
+func (r *runner) finishLogin() (ok, returned bool) {
+	k := r.hold
+	if k == nil {
+		return false, true
+	}
+	r.hold = nil
+	close(k.release)
+	select {
+	case ok = <-k.done:
+		return ok, true
+	case <-time.After(10 * time.Second):
+		return false, false
+	}
+}
+
 type pendingSweep struct {
 	conn    string
 	release chan struct{}
@@ -438,11 +463,12 @@ func (r *runner) step(o opT) (fw.Event, string) {
 		deadline := time.Now().Add(tickLength + 2*time.Second)
 		got := ""
 		for got == "" && time.Now().Before(deadline) {
+			began := time.Now()
 			r.beatAll(o.C)
 			if time.Since(last) > hbTimeout/2 {
 				r.overrun = true // a kept connection may have gone stale
 			}
-			last = time.Now()
+			last = began // the oldest heartbeat of this round
 			select {
 			case got = <-parked:
 			case <-time.After(hbEvery):
@@ -458,9 +484,81 @@ func (r *runner) step(o opT) (fw.Event, string) {
 			}
 		}
 		r.sweep = k
+		if time.Since(last) > hbTimeout/2 {
+			// the driver was not scheduled for too long right before the sweep came: a kept connection may have gone
+			// stale and been taken out of the registry in the same pass (its callback runs after ours): not the modelled schedule
+			r.overrun = true
+			return ev, ""
+		}
 		if got != c.ID {
 			r.overrun = true // the sweep reached another connection first: not the modelled schedule
 			return ev, ""
+		}
+	case "LoginLost", "LoginHold":
+		if s := needOpen(); s != "" {
+			return nil, s
+		}
+		cred := w.Cred(o.ID)
+		if cred == nil {
+			return nil, "login for an identity the server never issued (model and server disagree on issuance)"
+		}
+		ev["id"] = o.ID
+		ch, _, err := c.Phase1(cred.ID, "control")
+		if err != nil || ch == "" {
+			return nil, fmt.Sprintf("no challenge for a correct login (%v)", err)
+		}
+		if o.Op == "LoginLost" {
+			// the success response cannot be delivered: the send side of the socket is broken, the transport stays open
+			ev["shape"] = "control:response-lost"
+			c.T.FailNextWrite()
+			resp, err := c.Phase2(cred.ID, srvkit.HMAC(cred.Secret, ch), "control")
+			if err != nil {
+				return nil, err.Error()
+			}
+			if resp != nil {
+				return nil, "the response was delivered although its write was made to fail"
+			}
+			ev["ok"] = false
+			break
+		}
+		ev["shape"] = "control:response-held"
+		k := &pendingLogin{conn: o.C, release: make(chan struct{}), done: make(chan bool, 1)}
+		parked := make(chan struct{}, 1)
+		c.T.AfterNextPacket(func() {
+			parked <- struct{}{}
+			<-k.release
+		})
+		go func() {
+			defer func() {
+				if x := recover(); x != nil { // a panic of the code under test must not kill the check; the judge sees the state
+					k.done <- false
+				}
+			}()
+			resp, err := c.Phase2(cred.ID, srvkit.HMAC(cred.Secret, ch), "control")
+			k.done <- err == nil && resp != nil && resp.Success
+		}()
+		select {
+		case <-parked:
+			r.hold = k
+		case <-k.done:
+			return nil, "the held login returned without writing a response packet"
+		case <-time.After(10 * time.Second):
+			return nil, "the held login neither wrote its response nor returned"
+		}
+	case "LoginResume":
+		if r.hold == nil {
+			return nil, "no login held (model and server disagree)"
+		}
+		ev["c"] = r.hold.conn
+		ev["shape"] = "control:resumed"
+		name := r.hold.conn
+		ok, returned := r.finishLogin()
+		if !returned {
+			return nil, "the held login did not return after its response write was released"
+		}
+		ev["ok"] = ok
+		if ok {
+			ev["okctl"] = name
 		}
 	case "SweepEnd":
 		if r.sweep == nil {
@@ -604,6 +702,7 @@ func driveSeq(ops []opT) *fw.Trace {
 	r := &runner{w: srvkit.NewWorld(s, keys(ops[0].Exp.Auth), keys(ops[0].Exp.Idx)), timed: timed, segStart: time.Now()}
 	defer r.finishKick()
 	defer r.finishSweep()
+	defer r.finishLogin()
 	if len(ops[0].Exp.Sess) > 0 && ops[0].Op != "Accept" { // configurations with PreAccept = TRUE
 		for _, n := range r.w.ConnNames {
 			if _, err := r.w.Accept(n); err != nil {
@@ -1027,6 +1126,8 @@ func main() {
 					{Name: "sweep in two parts (locked section, then callback) with kicks, and sweep under a cloud outage, one client, complete", Module: "SessionReg", Cfg: "SessionReg_sweep.cfg",
 						Consts: map[string]string{"FIXES": fixes, "FAULTS": "{}", "CLIENT": "Client1", "VIEW": "VIEW viewX", "LEVEL": "99", "EMIT": `"no"`,
 							"OPS": `{"FirstLogin", "Login", "Close", "Kick", "SweepBegin", "TickX", "Cloud"}`}},
+					{Name: "authenticated-but-unindexed connections (tunnel type, lost / held response) and every removal path, one client, complete", Module: "SessionReg", Cfg: "SessionReg_dup.cfg",
+						Consts: map[string]string{"FIXES": fixes, "FAULTS": "{}", "CLIENT": "Client1", "VIEW": "VIEW viewX", "LEVEL": "99", "EMIT": `"no"`, "OPS": `{"FirstLogin", "Login", "LoginLost", "LoginHold", "Close", "CloseCmd", "Kick", "SweepBegin"}`}},
 				})
 			}
 			return withTimeout(to, []fw.TLCJob{ // LEVEL 99 = complete state graph
@@ -1041,6 +1142,8 @@ func main() {
 				{Name: "sweep in two parts (locked section, then callback) with kicks, and sweep under a cloud outage, two clients, complete", Module: "SessionReg", Cfg: "SessionReg_sweep.cfg",
 					Consts: map[string]string{"FIXES": fixes, "FAULTS": "{}", "CLIENT": "Client2", "VIEW": "VIEW viewX", "LEVEL": "99", "EMIT": `"no"`,
 						"OPS": `{"FirstLogin", "Login", "Close", "Kick", "SweepBegin", "TickX", "Cloud"}`}},
+				{Name: "authenticated-but-unindexed connections (tunnel type, lost / held response) and every removal path, two clients, complete", Module: "SessionReg", Cfg: "SessionReg_dup.cfg",
+					Consts: map[string]string{"FIXES": fixes, "FAULTS": "{}", "CLIENT": "Client2", "VIEW": "VIEW viewX", "LEVEL": "99", "EMIT": `"no"`, "OPS": `{"FirstLogin", "Login", "LoginLost", "LoginHold", "Close", "CloseCmd", "Kick", "SweepBegin"}`}},
 				{Name: "tree before patches C07-1/C07-2, depth 8 (invariants masked by the named deviations)", Module: "Session", Cfg: "Session_c07.cfg",
 					Consts: map[string]string{"FIXES": "{}", "LEVEL": "8", "EMIT": `"no"`, "INV": "C07InvMasked C07OneMasked"}},
 				{Name: "interleaved critical sections before C07-2, depth 14 (login race masked)", Module: "Session", Cfg: "Session_split.cfg",
@@ -1069,6 +1172,14 @@ func main() {
 				{Name: "gen:simulate", Module: "Session", Cfg: strings.Replace(cfg, "SessionReg_", "Session_", 1), Workers: 4, Simulate: sims, Depth: depth + 1, Seed: env.Seed,
 					Consts: map[string]string{"FIXES": fixes, "LEVEL": fmt.Sprint(depth), "EMIT": `"last"`, "INV": "C07Inv C07One"}},
 			}
+			// connections authenticated for a client but not indexed, next to the client's indexed one: all canonical histories
+			jobs = append(jobs, fw.TLCJob{Name: "gen:dup", Module: "SessionReg", Cfg: "SessionReg_dup.cfg", Workers: 8,
+				Consts: map[string]string{"FIXES": fixes, "FAULTS": "{}", "CLIENT": "Client1", "VIEW": "", "LEVEL": "4", "EMIT": `"canon"`, "OPS": `{"FirstLogin", "Login", "LoginLost", "LoginHold", "Close", "CloseCmd", "Kick", "SweepBegin"}`}})
+			if env.Tier == "thorough" {
+				jobs = append(jobs, fw.TLCJob{Name: "gen:dup5", Module: "SessionReg", Cfg: "SessionReg_dup.cfg", Workers: 8,
+					Consts: map[string]string{"FIXES": fixes, "FAULTS": "{}", "CLIENT": "Client1", "VIEW": "", "LEVEL": "5", "EMIT": `"canon"`,
+						"OPS": `{"FirstLogin", "Login", "LoginLost", "LoginHold", "Close", "CloseCmd", "SweepBegin"}`}})
+			}
 			if env.Tier == "thorough" { // kicks inside the sweep window as well
 				jobs = append(jobs, fw.TLCJob{Name: "gen:sweepkick", Module: "SessionReg", Cfg: "SessionReg_sweep.cfg", Workers: 8,
 					Consts: map[string]string{"FIXES": fixes, "FAULTS": "{}", "CLIENT": "Client1", "VIEW": "", "LEVEL": "5", "EMIT": `"canon"`,
@@ -1078,9 +1189,9 @@ func main() {
 		},
 		MaxBehSrc: func(env *fw.Env, src string) int {
 			if env.Tier == "thorough" {
-				return map[string]int{"gen:transitions": 30000, "gen:cap": 12000, "gen:kick": 15000, "gen:simulate": 8000, "gen:sweep": 6000, "gen:sweepkick": 6000}[src]
+				return map[string]int{"gen:transitions": 30000, "gen:cap": 12000, "gen:kick": 15000, "gen:simulate": 8000, "gen:sweep": 6000, "gen:sweepkick": 6000, "gen:dup": 6000, "gen:dup5": 8000}[src]
 			}
-			return map[string]int{"gen:transitions": 2600, "gen:cap": 900, "gen:kick": 2000, "gen:simulate": 600, "gen:sweep": 1200}[src]
+			return map[string]int{"gen:transitions": 2600, "gen:cap": 900, "gen:kick": 2000, "gen:simulate": 600, "gen:sweep": 1200, "gen:dup": 6000}[src]
 		},
 		ExtraBeh:    parBehaviours,
 		Drive:       drive,
@@ -1109,6 +1220,7 @@ func main() {
 			"a kick is held between its locked section and its I/O by a one-shot hook in the old peer's fake transport (KickBegin/KickEnd); a cloud-control outage fails DisconnectClient(IfMatch)/EnsureClientOnline of the session layer's adapter",
 			"UnregisterForTunnel is driven through ClientRegistry.Unregister directly (what handleTunnelOpen calls), not through a full tunnel open",
 			"the sweep window is realised on the server's own sweep goroutine: it is parked in the offline notification of its callback (DisconnectClientIfMatch of the session layer's cloud-control adapter, one-shot hold) for one stale authenticated connection; other connections are kept alive by heartbeats",
+			"LoginLost = a correct control-type login whose success response write is made to fail once by the fake transport (send side broken, transport open); LoginHold/LoginResume = the same login with its goroutine parked right after the response write, before handleHandshake's registry section; operations in that window concern other connections only",
 			"Close with how=command is the client's Disconnect command (handleDisconnectCommand -> CloseConnection), observed before the peer closes its socket; a command the server ignores demands nothing",
 			"a panic of tunnox-core beside the sweep goroutine in a timed behaviour (stream closed under a writer after a timing overrun; StreamProcessor teardown, known finding of C16) discards the behaviour as inconclusive",
 		},
